@@ -147,6 +147,7 @@ class Report(object):
         name = getattr(fn, 'rule_name', name)
         self.current_rule = name
         self.current_port = port
+        self._fallback = None
         self.rules_run.append(name if port is None else '{}[{}]'.format(name, port))
         n_before = len(self.obs)
         try:
